@@ -63,6 +63,20 @@ pub fn build_event(cfg: &gen_::Cfg, wd: &gen_::Workdir, i: u64) -> (Value, Optio
 pub fn run(args: &Args) {
     let mut t = Tracer::create(args.req("out"));
     let mut rng = Rng::new(args.seed());
+    // the dependency constructors: name decoration and sense bits (spec/Builder.tla DepSense)
+    {
+        use rpm::Dependency as D;
+        let ctors: Vec<(&str, D)> = vec![
+            ("any", D::any("n")), ("eq", D::eq("n", "1")), ("less", D::less("n", "1")), ("less_eq", D::less_eq("n", "1")),
+            ("greater", D::greater("n", "1")), ("greater_eq", D::greater_eq("n", "1")), ("rpmlib", D::rpmlib("n", "1")),
+            ("config", D::config("n", "1")), ("user", D::user("n")), ("group", D::group("n")),
+            ("script_pre", D::script_pre("n")), ("script_post", D::script_post("n")), ("script_preun", D::script_preun("n")),
+            ("script_postun", D::script_postun("n")),
+        ];
+        for (c, d) in ctors {
+            t.emit(json!({"event":"DepCtor","ctor":c,"name":d.name.as_bytes(),"flags":u32d(d.flags.bits()),"version":d.version.as_bytes()}));
+        }
+    }
     let n = args.num("n", 200);
     let wd = gen_::Workdir::new("c06");
     for i in 0..n {
